@@ -72,6 +72,10 @@ func c19(r *Report) propMeta {
 	r.Rule("C19.R9", "E20 event agreement: what yoda reads from events is emitted")
 	r.EventAgreement("events", 1, "yoda.")
 
+	r.Rule("C19.R10", "every event of a transaction is scanned")
+	r.LoopVisitsAll("all-events-scanned", "yoda.GetEventValues", "builtin.append", LoopOpts{Outermost: true, RangesOver: []string{"len", "param:events", "!field:Event.Attributes"}})
+	r.LoopVisitsAll("all-attributes-scanned", "yoda.GetEventValues", "builtin.append", LoopOpts{})
+
 	return propMeta{
 		Decided: []string{
 			"R8 a batch handed to `go SubmitReport` is replaced in the waiting list by a fresh slice or the disjoint tail, never by a re-slice that keeps its first element (the next queued report would overwrite a report in flight); the PendingRequests query, which seeds a restarted yoda, looks at every request between the expiry cursor and the request count and does not consult results (a resolved request still demands a report from every selected validator until it expires)", "R7 abciQuery returns nil error only together with the RPC result of a successful ABCIQuery, and every other return carries an error that derives from the failed ABCIQuery (never a nil result with a nil error after the retries); the three fetchers touch the result only under err == nil",
@@ -82,6 +86,7 @@ func c19(r *Report) propMeta {
 			"R5 explicit panics / Must* reachable in package yoda ⊆ accepted table",
 			"R6 SubmitReport returns its key in a defer; runImpl subscribes to new transactions before it snapshots pending requests",
 			"R9 every (event type, attribute key) pair yoda looks up in new-block / transaction events is emitted by a module with exactly those constants (request.id: without it a selected validator never hears of the request)",
+			"R10 yoda.GetEventValues collects the attribute from EVERY event of the given type in the log (outer loop over all events, inner loop over all attributes, no early way out): a transaction that creates several requests yields all their ids (seed C19-8 stopped at the first event)",
 		},
 		Undecided: []string{"data races and goroutine interleavings", "behaviour under RPC failures (returns early by design)", "executor internals"},
 		Assume:    []string{"Go channel semantics", "a panic in any goroutine terminates the process"},
